@@ -2473,12 +2473,12 @@ impl Melda {
                 .ok_or_else(|| anyhow!("packs_not_an_array"))?;
             // Collect identifiers
             if !packs.is_empty() {
-                b_packs = Some(
-                    packs
-                        .iter()
-                        .map(|p| p.as_str().unwrap().to_string())
-                        .collect(),
-                );
+                let mut ids = BTreeSet::new();
+                for p in packs {
+                    let p = p.as_str().ok_or_else(|| anyhow!("pack_not_string"))?;
+                    ids.insert(p.to_string());
+                }
+                b_packs = Some(ids);
             }
         }
 
